@@ -487,3 +487,79 @@ Definition tags (cs : list qcase) : list (N * N) :=
     if qc_cap c <? N.of_nat (length (knocks_of_probes (qc_burst c))) then 2 else 1)) cs.
 
 End Q.
+
+(* ================================================================ W *)
+(* several report windows: burst, wait for its report, next burst (same source addresses and
+   ports again), ...  The connection records of earlier windows are still in the state table
+   (rx_frames threads the table through all windows); every burst must be reported in its own
+   round. *)
+Module W.
+Import S.
+
+Record wcase := mkW {
+  w_id : N; w_me : list N;
+  w_windows : list (list bytes);        (* the frames of each burst *)
+  w_rounds : list (list ev) }.          (* the report round after each burst, then one more *)
+
+Fixpoint rx_windows (me : list N) (tb : ttable) (ws : list (list bytes)) : list (list knock) :=
+  match ws with
+  | [] => []
+  | w :: r =>
+      let step := fix step (tb : ttable) (fs : list bytes) : list knock * ttable :=
+        match fs with
+        | [] => ([], tb)
+        | f :: fr => let '(o, tb') := rx_frame me tb f in
+                     let '(ks, tb'') := step tb' fr in
+                     (match o with FKnock k => k :: ks | _ => ks end, tb'')
+        end in
+      let '(ks, tb') := step tb w in ks :: rx_windows me tb' r
+  end.
+
+(* window i: knocks at 6000*i ms, its tick at 6000*i + 5000; one more tick at the end *)
+Fixpoint window_events (i : nat) (kss : list (list knock)) : list devent :=
+  match kss with
+  | [] => [DTick (6000 * Z.of_nat i + 5000)%Z]
+  | ks :: r => map (fun k => DKnock k (6000 * Z.of_nat i)%Z) ks ++
+               [DTick (6000 * Z.of_nat i + 5000)%Z] ++ window_events (S i) r
+  end.
+
+Definition model_rounds (c : wcase) : list (list ev) :=
+  map (map ev_of_report) (fst (run (window_events 0 (rx_windows (w_me c) [] (w_windows c))) det0)).
+
+Definition untracked_w (c : wcase) : bool :=
+  existsb F.untracked (rx_frames (w_me c) [] (concat (w_windows c))).
+
+Definition mismatches (cs : list wcase) : list N :=
+  map w_id (filter (fun c =>
+    untracked_w c ||
+    negb (list_eqb (list_eqb ev_eqb) (map F.canon2 (model_rounds c)) (map F.canon2 (w_rounds c)))) cs).
+
+Definition SIG_W_MISSING := 17.   (* a probe of a burst is not in the report round of that burst *)
+Definition SIG_W_TWICE := 18.
+Definition SIG_W_SPURIOUS := 19.  (* a pair listed in a round matches no frame of that burst *)
+Definition SIG_W_EXTRA := 20.     (* events after the round of the last burst *)
+
+Fixpoint window_sigs (me : list N) (ws : list (list bytes)) (rs : list (list ev)) : list N :=
+  match ws, rs with
+  | w :: wr, r :: rr =>
+      let inl x l := existsb (pair_eqb x) l in
+      flat_map (fun sp => let '(src, p) := sp in
+        if negb (inl p (F.listed_for src r)) then [SIG_W_MISSING]
+        else if Nat.ltb 1 (count_p p (F.listed_for src r)) then [SIG_W_TWICE] else [])
+        (opts (map (F.spec_probe me) w)) ++
+      flat_map (fun e => flat_map (fun p =>
+        if existsb (F.frame_matches e p) w then [] else [SIG_W_SPURIOUS]) (e_ports e)) r ++
+      window_sigs me wr rr
+  | [], r :: rr => if existsb nonempty (r :: rr) then [SIG_W_EXTRA] else []
+  | _, [] => []
+  end.
+
+Definition case_sigs (c : wcase) : list N := nodup_n (window_sigs (w_me c) (w_windows c) (w_rounds c)).
+
+Definition violations (cs : list wcase) : list (N * N) :=
+  flat_map (fun c => map (fun s => (w_id c, s)) (case_sigs c)) cs.
+
+Definition tags (cs : list wcase) : list (N * N) :=
+  map (fun c => (w_id c, N.of_nat (length (w_windows c)))) cs.
+
+End W.
